@@ -148,7 +148,9 @@ func (f *Fosite) DefaultClientAuthenticationStrategy(ctx context.Context, r *htt
 
 		claims := token.Claims
 		var jti string
-		if !claims.VerifyIssuer(clientID, true) {
+		if !claims.VerifyExpiresAt(jwt.TimeFunc().Unix(), true) {
+			return nil, errorsx.WithStack(ErrInvalidClient.WithHint("Claim 'exp' from 'client_assertion' must be set and must not be in the past."))
+		} else if !claims.VerifyIssuer(clientID, true) {
 			return nil, errorsx.WithStack(ErrInvalidClient.WithHint("Claim 'iss' from 'client_assertion' must match the 'client_id' of the OAuth 2.0 Client."))
 		} else if len(f.Config.GetTokenURLs(ctx)) == 0 {
 			return nil, errorsx.WithStack(ErrMisconfiguration.WithHint("The authorization server's token endpoint URL has not been set."))
